@@ -19,7 +19,7 @@ ASSUMPTIONS = ["snapshot comparison is the verdict", "positional slices and Time
 
 LIST_OPS = ["sorted", "sorted_rev", "append_item", "append_list", "append_to_empty", "after", "before", "between", "first", "last", "first_last", "move_start", "move_end",
             "time_diff", "deepcopy", "describe", "getint", "mask", "iter", "len", "to_numpy"]
-MAP_OPS = ["rate", "deepcopy", "describe", "stack", "convert", "write", "write_file", "full_ln", "dominant", "scroll", "normalize", "pattern", "hitsound"]
+MAP_OPS = ["rate", "deepcopy", "describe", "stack", "convert", "write", "write_file", "full_ln", "dominant", "scroll", "normalize", "pattern", "hitsound", "timing"]
 CONV = {"osu": ["OsuToQua", "OsuToSM", "OsuToBMS"], "qua": ["QuaToOsu", "QuaToSM", "QuaToBMS"], "sm": ["SMToOsu", "SMToQua", "SMToBMS"],
         "bms": ["BMSToOsu", "BMSToQua", "BMSToSM"], "o2j": ["O2JToOsu", "O2JToQua", "O2JToSM", "O2JToBMS"]}
 
@@ -32,6 +32,14 @@ def gen(rng, tier, k):
     from rv.gen import charts
 
     spec = charts.gen_spec(rng, n=rng.choice([1, 3, 8, 15]))
+    if rng.random() < 0.3:
+        # a note a hair after the first tempo point (not on it)
+        for ch in spec["charts"]:
+            t0 = min(b[0] for b in ch["bpms"])
+            ch["hits"].append([t0 + 1e-6 * max(1.0, abs(t0)), 0])
+            for k2, dflt in (("hit_x", {"osu": [0, 0, 0, 0, 0, ""], "qua": [[]], "bms": [b""], "o2j": [0, 8]}.get(spec["game"])),):
+                if k2 in ch and dflt is not None:
+                    ch[k2].append(dflt)
     hist = charts.gen_history(rng) if rng.random() < 0.5 else []
     ops = []
     for _ in range(rng.randint(3, 8)):
@@ -250,6 +258,26 @@ def run(ctx, case):
                     if game in ("osu", "qua"):
                         res = None
                         sv_normalize(m)
+                elif name == "timing":
+                    # the timing engine is handed the chart's own columns (as the SM / BMS writers do)
+                    from reamber.algorithms.timing.utils.Snapper import Snapper
+                    from rv.snapshot import diff_snapshots, snapshot
+                    with ctx.quiet():
+                        before = snapshot(m)
+                    tm = m.bpms.to_timing_map()
+                    for col in (m.hits.offset, m.holds.offset, m.bpms.offset):
+                        if len(col):
+                            try:
+                                tm.snaps(col, Snapper())
+                                tm.beats(col, Snapper())
+                            except Exception:
+                                pass
+                    with ctx.quiet():
+                        d = diff_snapshots(before, snapshot(m))
+                    if d:
+                        ctx.violate("C14", "frozen", "argument_modified", f"TimingMap.snaps/beats on the chart's own offset column changed the chart: {d}", dict(diff=d), dict(op="TimingMap.snaps"))
+                    else:
+                        ctx.held("frozen", "TimingMap.snaps")
                 elif name == "pattern":
                     Pattern.from_note_lists([m.hits, m.holds]).group()
                 elif name == "hitsound":
